@@ -198,6 +198,35 @@ theorem TRel.reach {t t' : Tree} (h : TRel t t') {i a : Nat} (hr : Reach t i a) 
     obtain ⟨w', h1, h2⟩ := h.2 _ _ hw
     exact .step h1 (by rw [h2.1]; exact hp) ih
 
+/-- No reference count changes. -/
+def SameRC (t t' : Tree) : Prop :=
+  ∀ (i : Nat) (w w' : Win), t.wins[i]? = some w → t'.wins[i]? = some w' → w'.refcount = w.refcount
+
+theorem SameRC.refl (t : Tree) : SameRC t t := by
+  intro i w w' h h'; rw [h] at h'; cases h'; rfl
+
+theorem SameRC.trans {a b c : Tree} (hab : TRel a b) (h1 : SameRC a b) (h2 : SameRC b c) : SameRC a c := by
+  intro i w w'' h h''
+  obtain ⟨w', hw', _⟩ := hab.2 i w h
+  exact (h2 i w' w'' hw' h'').trans (h1 i w w' h hw')
+
+theorem SameRC.of_wins {t t' : Tree} (h : t'.wins = t.wins) : SameRC t t' := by
+  intro i w w' hw hw'; rw [h, hw] at hw'; cases hw'; rfl
+
+theorem SameRC.set {t : Tree} {p : Nat} {pw pw' : Win} (hl : t.wins[p]? = some pw) (hr : pw'.refcount = pw.refcount) :
+    SameRC t (WinTree.set t p pw') := by
+  intro i w w' hw hw'
+  rw [set_get] at hw'
+  by_cases hip : p = i
+  · subst hip
+    rw [hl] at hw; cases hw
+    simp only [if_true] at hw'
+    split at hw'
+    · cases hw'; exact hr
+    · cases hw'
+  · simp only [hip, if_false] at hw'
+    rw [hw] at hw'; cases hw'; rfl
+
 /-- An operation that relates the trees window by window keeps `TInv`, provided the new queue and drag source
     are fine in the old tree. -/
 theorem TInv.of_rel_gen {t t' : Tree} (inv : TInv t) (h : TRel t t')
